@@ -22,6 +22,15 @@ ASSUMPTIONS = [
     "the local tables handed to the global table are recorded by wrapping TraceSymbolTable.add_symbols in the harness process (no change to /repo)",
     "independence of the hash seed is exercised by re-running a battery of analyses in subprocesses under other PYTHONHASHSEED values and with the process pool on/off, requiring identical canonical output",
 ]
+_TINY = [
+    {"ph": "X", "cat": "cpu_op", "name": "aten::op", "pid": 9, "tid": 9, "ts": 0, "dur": 100},
+    {"ph": "X", "cat": "cuda_runtime", "name": "cudaLaunchKernel", "pid": 9, "tid": 9, "ts": 5, "dur": 5, "args": {"correlation": 3}},
+    {"ph": "X", "cat": "kernel", "name": "k", "pid": 0, "tid": 7, "ts": 12, "dur": 20, "args": {"correlation": 3, "stream": 7}},
+    {"ph": "X", "cat": "cuda_runtime", "name": "cudaDeviceSynchronize", "pid": 9, "tid": 9, "ts": 15, "dur": 20, "args": {"correlation": 4}},
+    {"ph": "X", "cat": "cuda_sync", "name": "Context Sync", "pid": 0, "tid": -1, "ts": 16, "dur": 19, "args": {"correlation": 4, "stream": -1}},
+    {"ph": "X", "cat": "cuda_runtime", "name": "cudaEventSynchronize", "pid": 9, "tid": 9, "ts": 40, "dur": 5, "args": {"correlation": 5}},
+    {"ph": "X", "cat": "cuda_sync", "name": "Event Sync", "pid": 0, "tid": -1, "ts": 41, "dur": 4, "args": {"correlation": 5, "stream": -1}},
+]
 VOCAB = ["a", "b", "kernel", "cpu_op", "aten::add", "", "ProfilerStep#1", "nccl", "x" * 40, "ü", "a b"]
 ROOT = os.path.dirname(os.path.dirname(os.path.dirname(os.path.abspath(__file__))))
 
@@ -71,7 +80,7 @@ def gen(rng, tier, no, wide=False):
         for e in rng.sample(xs, min(len(xs), rng.randint(1, 3))):
             e["name"] = rng.choice(["kernel", "cpu_op", "cuda_runtime", "user_annotation", "gpu_memcpy"])
     case["params"] = {"ops": ops, "mp": rng.random() < 0.6, "order": rng.sample(range(n), n),
-                      "probe": (no % (4 if tier == "quick" else 3)) == 0, "mp_symbols": rng.random() < 0.2, "direct_order": rng.random() < 0.4}
+                      "probe": (no % (4 if tier == "quick" else 3)) == 0, "mp_symbols": rng.random() < 0.2, "direct_order": rng.random() < 0.4, "tiny_probe": no % 30 == 7}
     return case
 
 
@@ -172,6 +181,12 @@ def observe(case):
             from harness.hashseed_probe import battery
             base = battery(case, False)
             canon["probe"] = {"base": base, "seed1_mp": _probe(case, 1, True), "seed777": _probe(case, 777, False)}
+        if p.get("tiny_probe"):
+            # a trace with a handful of symbols, two of them the names of device-side synchronisation records: under a
+            # dozen hash seeds each of them is bound to receive every small id (0 included) at least once
+            tiny = {"ranks": {0: _TINY}}
+            from harness.hashseed_probe import battery
+            canon["tiny_probe"] = {"base": battery(tiny, False), "seeds": {str(sd): _probe(tiny, sd, False) for sd in range(1, 13)}}
         return {"canon": canon}
     finally:
         htaio.remove_case_dir(files)
@@ -222,6 +237,13 @@ def oracle(case, obs) -> List[str]:
     ms = c.get("mp_symbols")
     if ms and not (ms["prefix_stable"] and ms["bijection"] and ms["set"] == sorted(["pre", "a", "b", "c", "d", "e"])):
         out.append(f"add_symbols_mp result {ms}")
+    tp = c.get("tiny_probe")
+    if tp:
+        bad = sorted(sd for sd, v in tp["seeds"].items() if v != tp["base"])
+        if bad:
+            v = tp["seeds"][bad[0]]
+            diff = {a: (tp["base"].get(a), v.get(a)) for a in set(tp["base"]) | set(v) if tp["base"].get(a) != v.get(a)}
+            out.append(f"results of a small trace with synchronisation records depend on the hash seed (seeds {bad}): {diff}")
     pr = c.get("probe")
     if pr:
         for k in ("seed1_mp", "seed777"):
